@@ -258,8 +258,14 @@ func (e *Engine) toBinary(s *State, f *Frame, x *ssa.Call, v *Term, n int, probe
 		if n == 254 {
 			s.assume(Lt(sum, RT()))
 		}
-		// derived fact, stated explicitly to spare the solver the 2^n case split
+		// derived facts, stated explicitly to spare the solver the 2^n case split: the value is below 2^n
+		// and (uniqueness of the binary expansion) bit i is (v div 2^i) mod 2
 		s.assume(Lt(v, IntC(bigPow2(uint(n)))))
+		if n <= 64 {
+			for i := 0; i < n; i++ {
+				s.assume(Eq(el[i].(VInt).T, Mod(Div(v, IntC(bigPow2(uint(i)))), Int64C(2))))
+			}
+		}
 	}
 	s.heap[obj] = &Seq{Conc: el}
 	return VSlice{Obj: obj, Off: Int64C(0), Len: Int64C(int64(n)), Cap: Int64C(int64(n))}
@@ -606,7 +612,8 @@ func (e *Engine) externalModel(s *State, f *Frame, x *ssa.Call, name string, cal
 		if a.IsConst() && k.IsConst() {
 			return e.setBig(s, args[0], IntC(new(big.Int).Exp(a.Val, k.Val, PConst)), probe), true
 		}
-		panic(execError{"Element.Exp on symbolic operands"})
+		e.note("gnark-crypto Element.Exp on a symbolic exponent: uninterpreted gl_pow(base, e) in [0,p), non-zero for a non-zero base")
+		return e.setBig(s, args[0], App("gl_pow", SInt, a, k), probe), true
 	case "(*github.com/consensys/gnark-crypto/field/goldilocks.Element).BigInt":
 		return e.setBig(s, args[1], e.bigOf(s, args[0]), probe), true
 	// ---- gnark helpers
@@ -669,6 +676,11 @@ func (e *Engine) externalModel(s *State, f *Frame, x *ssa.Call, name string, cal
 		b, ok2 := args[1].(VFloat)
 		if ok1 && ok2 {
 			return VFloat{math.Pow(a.F, b.F)}, true
+		}
+		if sb, ok := args[1].(VSymFloat); ok && ok1 && a.F == 2 {
+			e.note("math.Pow(2, k) for a symbolic integer k in [0,256]: exact power of two")
+			s.assume(And(Le(Int64C(0), sb.T), Le(sb.T, Int64C(256))))
+			return VSymFloat{appSimplify("pow2", SInt, []*Term{sb.T})}, true
 		}
 		panic(execError{"math.Pow on symbolic operands"})
 	case "math/bits.Len64", "math/bits.Len":
